@@ -2,6 +2,7 @@ package main
 
 import (
 	"fmt"
+	"github.com/jcmturner/gofork/encoding/asn1"
 	"time"
 	"verif/harness/props/c01b"
 
@@ -26,10 +27,18 @@ func defectCatalogue() []defect {
 		{"wrong-key", true, func(c *Ctx, s *testService, r *recipe, d time.Duration) { r.tktKey = randKey(c, r.et) }},
 		{"wrong-kvno", true, func(c *Ctx, s *testService, r *recipe, d time.Duration) { r.kvno = s.kvno + 1 }},
 		{"kvno-plus-256", true, func(c *Ctx, s *testService, r *recipe, d time.Duration) { r.kvno = s.kvno + 256*(1+c.R.Intn(300)) }},
-		{"ctime-late-subsecond", true, func(c *Ctx, s *testService, r *recipe, d time.Duration) { r.ctime = r.ctime.Add(-d - 600*time.Millisecond) }},
+		{"ctime-late-subsecond", true, func(c *Ctx, s *testService, r *recipe, d time.Duration) {
+			r.ctime = r.ctime.Add(-d - 600*time.Millisecond)
+		}},
 		{"end-outside-subsecond", true, func(c *Ctx, s *testService, r *recipe, d time.Duration) {
 			// ticket times have whole seconds on the wire: end lies between d+0.2s and d+1.2s in the past
 			r.end = r.now.Add(-d - 1200*time.Millisecond).Truncate(time.Second)
+		}},
+		{"broken-pac", false, func(c *Ctx, s *testService, r *recipe, d time.Duration) {
+			// AD-IF-RELEVANT { AD-WIN2K-PAC: a PACTYPE header that announces more buffers than it has bytes for }:
+			// invalid exactly when PAC decoding is enabled (decided in run)
+			inner, _ := asn1.Marshal(types.AuthorizationData{{ADType: 128, ADData: []byte{5, 0, 0, 0, 0, 0, 0, 0, 1, 0, 0, 0}}})
+			r.authData = types.AuthorizationData{{ADType: 1, ADData: inner}}
 		}},
 		{"wrong-etype", true, func(c *Ctx, s *testService, r *recipe, d time.Duration) {
 			r.encEType = map[int32]int32{17: 18, 18: 17, 19: 20, 20: 19, 23: 17, 16: 23}[r.et]
@@ -139,6 +148,10 @@ func c01(c *Ctx) {
 				}
 			}
 		}
+		pacCase := containsDefect(cat, defs, "broken-pac")
+		if pacCase && ss.decodePAC {
+			invalid = true
+		}
 		// address requirements
 		if len(r.caddr) > 0 {
 			ok := false
@@ -188,7 +201,9 @@ func c01(c *Ctx) {
 		default:
 			obs = jv.Err()
 		}
-		c.Case("verify_apreq", in, obs)
+		if !pacCase {
+			c.Case("verify_apreq", in, obs) // PAC processing is outside this model (C19): direct oracle only
+		}
 		c.Count("etype=" + fmt.Sprint(et))
 		c.Count("defects=" + fmt.Sprint(len(defs)))
 		for _, di := range defs {
